@@ -142,7 +142,8 @@ impl SyncReadBuf {
                 let available_space = capacity - current_len;
 
                 // If target space is less than base capacity, grow the buffer.
-                let target_space = self.base_capacity;
+                // (At least one byte: a zero-length read would look like EOF.)
+                let target_space = self.base_capacity.max(1);
                 if available_space < target_space {
                     let new_capacity = current_len + target_space;
                     let _ = inner.reserve_exact(new_capacity - capacity);
